@@ -202,6 +202,44 @@ class RealMachine(object):
             r = operator.iadd(a, b)
             V[st['a']] = r
             return 'inplace', r, [a, b]
+        elif op == 'clone':
+            # the formula through an ordinary Python protocol: copy.copy, copy.deepcopy or a pickle round trip.  The
+            # result is a formula of the same atoms (the table's own atom objects), the source is unchanged
+            import copy
+            import pickle
+            src = V[st['src']]
+            how = st.get('how', 'deepcopy')
+            if how == 'copy':
+                r = copy.copy(src)
+            elif how == 'pickle':
+                r = pickle.loads(pickle.dumps(src, st.get('protocol', pickle.HIGHEST_PROTOCOL)))
+            else:
+                r = copy.deepcopy(src)
+            V.append(r)
+            return 'value', r, [src]
+        elif op == 'scribble':
+            # the caller edits what a read handed back (the atoms dict, the mass-fraction dict, the Hill formula): these
+            # are the caller's own objects, editing them changes nothing the library serves later
+            v = V[st['src']]
+            try:
+                d = v.atoms
+                for k in list(d):
+                    d[k] = 12345.0
+                d.clear()
+                mf = v.mass_fraction
+                for k in list(mf):
+                    mf[k] = -1.0
+                h = v.hill
+                if h is not v:
+                    h += h
+                    try:
+                        h.density = 99.0
+                        h.name = 'scribbled'
+                    except Exception:
+                        pass
+            except Exception:
+                pass
+            return 'observe', v, [v]
         elif op == 'observe':
             # read-only use of a variable between two operations (print it, take its Hill form, read
             # its derived values): must not change what any later operation returns
@@ -262,8 +300,12 @@ class ShadowMachine(object):
 
     def step(self, st):
         op = st['op']
-        if op == 'observe':
-            return  # a read changes nothing
+        if op in ('observe', 'scribble'):
+            return  # a read changes nothing, and neither does editing what the read returned
+        if op == 'clone':
+            o = self.obj(st['src'])
+            self._new(dict(o.atoms), list(o.struct))
+            return
         if op == 'atom':
             k = tuple(st['key'])
             self._new({k: Fraction(1)}, [(Fraction(1), k)])
@@ -324,8 +366,9 @@ class ProgramGen(object):
     integers); *positive* excludes zero counts/multipliers and empty fragments."""
 
     def __init__(self, table, rng, positive=False, leaf_count=None, multiplier=None,
-                 p_dt=0.05, names=True, string_depth=2, string_counts=None, name_pool=None):
+                 p_dt=0.05, names=True, string_depth=2, string_counts=None, name_pool=None, protocols=False):
         self.table = table
+        self.protocols = protocols
         self.rng = rng
         self.positive = positive
         self.names = names
@@ -478,6 +521,11 @@ class ProgramGen(object):
                 st = self.leaf(pool)
             elif rng.random() < 0.15:
                 st = {'op': 'observe', 'src': rng.randrange(nv)}
+            elif self.protocols and rng.random() < 0.10:
+                st = {'op': 'clone', 'src': rng.randrange(nv), 'how': rng.choice(['copy', 'deepcopy', 'deepcopy', 'pickle']),
+                      'protocol': rng.choice([0, 2, 4, 5])}
+            elif self.protocols and rng.random() < 0.06:
+                st = {'op': 'scribble', 'src': rng.randrange(nv)}
             else:
                 i, j = rng.randrange(nv), rng.randrange(nv)
                 r = rng.random()
